@@ -240,3 +240,40 @@ Definition spec_ok (p : path) (es : list revent) (crashed : bool) (r : result) :
   negb crashed &&
   forallb (fun m => match r with Done g => mem m (get (dest m) g) | Failed => false end)
           (filter_map (owed p) (flat es)).
+
+(* ---------------------------------------------------------------------------------------------
+   What the event handlers hand on to the relayer.  HandleEvents pushes every group of the result
+   map to the message channel as ONE batch ([]*message.Message).  sygma-core's Relayer.Start takes
+   each batch off the channel and runs `go r.route(batch)`; route reads batch[0].Destination and
+   hands every message of the batch to ReceiveMessage of the chain registered for THAT destination
+   (-> MessageHandler.HandleMessage, which reads m.Type).  There is no recover on that goroutine: an
+   empty batch (index out of range) or a nil message (nil dereference) ends the relayer process. *)
+Definition batch := list (option msg).      (* None: a nil *message.Message *)
+
+Definition batches_of (g : groups) : list batch := map (fun kl => map Some (snd kl)) g.
+
+Inductive routed := Delivered (k : N) (l : list msg) | RoutePanic.
+
+Fixpoint somes (b : batch) : option (list msg) :=
+  match b with
+  | [] => Some []
+  | Some m :: r => match somes r with Some l => Some (m :: l) | None => None end
+  | None :: _ => None
+  end.
+
+Definition route (b : batch) : routed :=
+  match b with
+  | [] => RoutePanic                 (* msgs[0]: index out of range *)
+  | None :: _ => RoutePanic          (* msgs[0].Destination: nil dereference *)
+  | Some m :: _ =>
+      match somes b with
+      | Some l => Delivered (dest m) l
+      | None => RoutePanic           (* ReceiveMessage(nil): m.Type *)
+      end
+  end.
+
+(* The judge on what was observed on the message channel: no batch makes the consumer panic. *)
+Definition batch_ok (b : batch) : bool :=
+  match route b with Delivered _ _ => true | RoutePanic => false end.
+
+Definition sent_ok (bs : list batch) : bool := forallb batch_ok bs.
